@@ -339,6 +339,7 @@ func (w *world) connect() {
 			if dead {
 				continue
 			}
+			w.log(Event{Kind: "sending", Conn: conn, Data: string(rec)})
 			err := cli.Send(rec)
 			w.log(Event{Kind: "sent", Conn: conn, Data: string(rec), Err: errStr(err)})
 			if err != nil {
@@ -589,6 +590,7 @@ func Run(t *testing.T, sc Scenario) (h *History) {
 		w.mu.Unlock()
 		w.settle()
 		once, cli := w.peerOnce, w.peer
+		w.log(Event{Kind: "peerclose", Flag: "epilogue"})
 		once.Do(func() { cli.Close() })
 		close(w.peerQ)
 		w.settle()
